@@ -319,6 +319,7 @@ class Summary:
     kwarg: Optional[str] = None
     vararg: Optional[str] = None
     alloc_comps: Dict[tuple, tuple] = field(default_factory=dict)  # accumulator identity -> the comprehension it was read as
+    inlined: List[str] = field(default_factory=list)  # helpers whose bodies were spliced into this summary (transitively)
 
     def of(self, kind) -> List[Event]:
         return [e for e in self.events if e.kind == kind]
@@ -474,7 +475,7 @@ class Evaluator:
             self._normalise_accumulators()
         return Summary(self.qual, self.module, fn, params, defaults, annotations, self.events, self.loops,
                        self.tries, self.env, fall, self.lambdas, self.nested, self.is_generator, kwarg, vararg,
-                       self.alloc_comps)
+                       self.alloc_comps, list(dict.fromkeys(self.inlined)))
 
     def _normalise_accumulators(self):
         """`out = []` filled by exactly one `out.append(v)` in a for loop and not otherwise touched until the loop
@@ -688,6 +689,7 @@ class Evaluator:
                     sub.lambdas = dict(self.lambdas)  # can be applied inside this one
                     self.lambdas[lid] = sub.run()
                     self._n = sub._n
+                    self.inlined += list(self.lambdas[lid].inlined)
                     self.env[st.name] = ("lambda", lid)
                 except (AnalysisError, RecursionError):
                     pass
@@ -1375,6 +1377,7 @@ class Evaluator:
         sub.lambdas = dict(self.lambdas)
         self.lambdas[lid] = sub.run()
         self._n = sub._n
+        self.inlined += list(self.lambdas[lid].inlined)
         return ("lambda", lid)
 
     def e_Await(self, n, live):
@@ -2011,6 +2014,7 @@ class Evaluator:
             cs = sub.run()
         except (AnalysisError, RecursionError):
             return None
+        self.inlined += [qual] + list(cs.inlined)
         params = list(cs.params)
         bound: Dict[tuple, tuple] = {}
         if selfterm is not None:
